@@ -177,7 +177,7 @@ func (self *Compiler) compileStmt(node ast.AnalyzedStatement) {
 	case ast.ExpressionStatementKind:
 		node := node.(ast.AnalyzedExpressionStatement)
 		self.compileExpr(node.Expression)
-		if node.Expression.Type().Kind() != ast.NullTypeKind {
+		if leavesValue(node.Expression) {
 			// Drop every value that the expression might generate
 			self.insert(newPrimitiveInstruction(Opcode_Drop), node.Range)
 		}
@@ -211,4 +211,31 @@ func (self *Compiler) compileLetStmt(node ast.AnalyzedLetStatement, isGlobal boo
 	self.CurrFn().CntVariables++ // FIXME: have reference
 
 	return mangledName
+}
+
+// Whether the compiled expression leaves a value on the operand stack.
+// Expressions of type `null` normally leave nothing (calls, assignments, `if` without `else`), but a `null` literal is
+// pushed like any other literal, also when it is what a block or branch evaluates to.
+func leavesValue(node ast.AnalyzedExpression) bool {
+	if node.Type().Kind() != ast.NullTypeKind {
+		return true
+	}
+
+	switch node.Kind() {
+	case ast.NullLiteralExpressionKind:
+		return true
+	case ast.GroupedExpressionKind:
+		return leavesValue(node.(ast.AnalyzedGroupedExpression).Inner)
+	case ast.BlockExpressionKind:
+		block := node.(ast.AnalyzedBlockExpression).Block
+		return block.Expression != nil && leavesValue(block.Expression)
+	case ast.IfExpressionKind:
+		ifExpr := node.(ast.AnalyzedIfExpression)
+		return ifExpr.ElseBlock != nil && ifExpr.ThenBlock.Expression != nil && leavesValue(ifExpr.ThenBlock.Expression)
+	case ast.TryExpressionKind:
+		tryBlock := node.(ast.AnalyzedTryExpression).TryBlock
+		return tryBlock.Expression != nil && leavesValue(tryBlock.Expression)
+	default:
+		return false
+	}
 }
